@@ -15,7 +15,7 @@ VERIF = os.path.dirname(os.path.dirname(os.path.abspath(__file__)))
 FILL_OPS = ("Fill", "FillNoW", "Increment")
 NEW_OPS = ("New", "NewDefault", "NewShared", "MH")
 DERIVE = {"Add": "add", "Combine": "add", "Mul": "mul", "Zero": "zero", "Copy": "copy", "Pickle": "pickle",
-          "Reload": "reload", "Immutable": "reload"}
+          "Reload": "reload", "Immutable": "reload", "Histogram": "conv", "FractionBuild": "conv"}
 
 
 def slot_tags(events, upto):
@@ -71,6 +71,10 @@ def attribute(ev, cl, tags, trace):
         return {"C06"} if cl == "noshare" else {"C14"}
     if kind == "frame" and op in ("Add", "Combine") and cl not in ("frame", "noshare"):
         return {"C14", "C01"}
+    if op in ("Histogram", "StackBuild", "FractionBuild"):
+        # conversions outside the listed properties: only their purity belongs to a property (C06: operands unchanged);
+        # Fraction.build deliberately keeps its arguments, and the contents they produce are no property's claim
+        return {"C06"} if cl == "frame" else set()
     if op in NEW_OPS:
         return {"C06"} if cl in ("noshare", "identity", "frame") else {"C02", "C06"}
     if op in FILL_OPS:
@@ -189,7 +193,7 @@ def judge(pid, traces, verdicts):
                 break
             if {v["cl"] for v in vs[l]} <= {"noshare", "identity"}:
                 continue
-            key = ",".join(sorted(props)) or "machinery:" + ",".join(sorted({v["cl"] for v in vs[l]}))
+            key = ",".join(sorted(props)) or "unattributed:%s:" % ev["op"] + ",".join(sorted({v["cl"] for v in vs[l]}))
             foreign[key] = foreign.get(key, 0) + 1
             judged_events += l
             done = True
